@@ -87,7 +87,9 @@ def evaluate(
     stdout as a str.
   """
   # Set up the permission and context.
-  permission = permission or permissions.get_permission()
+  permission = (
+      permission if permission is not None else permissions.get_permission()
+  )
   ctx = dict(get_context())
   if global_vars:
     ctx.update(global_vars)
